@@ -580,6 +580,9 @@ def run(tape, prop, tier):
     res.stats["subscribe_frames"] += len(L["subs"])
     res.stats["events_delivered"] += sum(len(v) for v in L["got"].values())
     res.stats["flavour:" + flavour] += 1
+    # basana iterates a set of channel names when it subscribes, so frame order (hence which frame gets which latency)
+    # legitimately follows PYTHONHASHSEED; across hash seeds only the outcome is comparable
+    res.xdigest = digest_of((flavour, sorted(kinds_fired), [v[1] for v in res.violations]))
     res.digest = digest_of(([(round(c["t_open"], 6), sorted(c["subs"])) for c in conns],
                             [(round(t, 6), cid, sorted(n)) for t, cid, n in L["subs"]],
                             [(round(t, 6), o) for t, o in att], {k: len(v) for k, v in L["got"].items()}))
